@@ -186,6 +186,11 @@ func (h *harness) checkOneKey(class, fixedKey string, c *niCase, comp compiler.N
 	if fixedKey != "" {
 		key = fixedKey
 	}
+	if strings.HasPrefix(c.id, "paillierrange/") && (class == "component-altered" || class == "byte-flip") {
+		// finding paillierrange-plaintext-modulus-unchecked: one key for the alterations of the
+		// range proof's response components
+		key = "paillierrange-plaintext-modulus-unchecked"
+	}
 	ct := caseText(c, comp, variant, cs, which, proof)
 	t0 := time.Now()
 	got := implVerdict(c, comp, cs, which, proof)
